@@ -31,6 +31,8 @@ func main() {
 		variant  = flag.String("variant", "", "internal: run one self-test variant (prop/index or prop/base)")
 		warm     = flag.Bool("warm", false, "load /repo once to warm the go build cache (used by setup_cmd)")
 		manifest = flag.Bool("manifest", false, "regenerate MANIFEST.json from the rule registry")
+		mutate   = flag.String("mutate", "", "run the systematic mutation analysis of a property's rule (id or 'all') and print the survivors")
+		maxMut   = flag.Int("max-mutants", 0, "cap on the number of mutants per property (0 = all)")
 		describeFlag = flag.Bool("describe", false, "print the per-property section of DESIGN.md (markdown) from the rule registry and a live run")
 	)
 	flag.Parse()
@@ -95,6 +97,27 @@ func main() {
 		sum, code := selftest.Run(*repo, *verif, *self, *jobs)
 		sum.Print()
 		os.Exit(code)
+	}
+	if *mutate != "" {
+		ids := []string{*mutate}
+		if *mutate == "all" {
+			ids = rules.IDs()
+		}
+		for _, id := range ids {
+			ms, err := selftest.Mutate(*repo, id, *jobs, *maxMut, seed)
+			if err != nil {
+				fmt.Println("mutation analysis failed:", err)
+				os.Exit(2)
+			}
+			fmt.Printf("== %s mutation analysis: %d functions, %d mutants: %d reported, %d not reported, %d not compiling\n", id, ms.Functions, ms.Generated, ms.Killed, ms.Survived, ms.Invalid)
+			for _, l := range ms.ByOp {
+				fmt.Println("   " + l)
+			}
+			for _, s := range ms.Survivors {
+				fmt.Println("   survivor " + s)
+			}
+		}
+		return
 	}
 
 	if *property == "" {
